@@ -172,6 +172,18 @@ class SizeEval:
     def fail(self, node, why):
         raise AnalysisError(f"{self.f.module.name}.{self.f.qualname} line {getattr(node, 'lineno', '?')}: nBytes: {why}: `{norm(node)}`")
 
+    def unbound(self, name, st):
+        """an accumulator that nothing in the function ever binds before it is added to: the size computation raises
+        UnboundLocalError for every object - a definite violation of the size identity, not an unmodelled spelling"""
+        binds = [n for n in ast.walk(self.f.node) if isinstance(n, ast.Name) and n.id == name and isinstance(n.ctx, ast.Store)
+                 and not any(isinstance(p, ast.AugAssign) and p.target is n for p in ast.walk(self.f.node))]
+        params = {a.arg for a in self.f.node.args.args + self.f.node.args.kwonlyargs}
+        if not binds and name not in params:
+            from .report import DefiniteViolation
+            raise DefiniteViolation("size-identity", self.f.module.path.name, self.f.qualname, st,
+                                    f"`{name}` is added to without ever being initialised in {self.f.qualname}: the declared size raises UnboundLocalError instead of giving the number of bytes written",
+                                    construct=f"{self.f.qualname} accumulator {name} never initialised", props=("C02", "C03", "C09"))
+
     def expr_ast(self, node):
         """substitute aliases (ast valued) and bound-variable renames"""
         env = {k: v for k, v in self.env.items() if isinstance(v, ast.AST)}
@@ -289,6 +301,8 @@ class SizeEval:
         for st in stmts:
             if isinstance(st, ast.Expr) and isinstance(st.value, ast.Constant):
                 continue
+            if isinstance(st, ast.Pass):
+                continue
             if isinstance(st, ast.Assign) and len(st.targets) == 1:
                 t = st.targets[0]
                 if isinstance(t, ast.Name):
@@ -304,6 +318,7 @@ class SizeEval:
             if isinstance(st, ast.AugAssign) and isinstance(st.target, ast.Name) and isinstance(st.op, (ast.Add, ast.Sub)):
                 cur = self.env.get(st.target.id)
                 if not isinstance(cur, Poly):
+                    self.unbound(st.target.id, st)
                     self.fail(st, "accumulator not initialised")
                 delta = self.P(st.value) * guard
                 self.env[st.target.id] = cur + delta if isinstance(st.op, ast.Add) else cur - delta
@@ -313,6 +328,7 @@ class SizeEval:
                 before = {a: self.env.get(a) for a in accs}
                 for a in accs:
                     if not isinstance(before[a], Poly):
+                        self.unbound(a, st)
                         self.fail(st, f"accumulator {a} not initialised before the loop")
                 saved_env = dict(self.env)
                 deltas = {}
